@@ -409,7 +409,7 @@ func (e *Exec) model() map[string]string {
 	for _, n := range e.names {
 		q = append(q, n)
 		if e.nameSort[n] == "Str" {
-			q = append(q, "(slen "+n+")", "(clean "+n+")")
+			q = append(q, "(slen "+n+")", "(clean "+n+")", "(lower "+n+")")
 		}
 	}
 	nNames := len(q)
@@ -430,14 +430,14 @@ func (e *Exec) model() map[string]string {
 		litAbs[vals[i]] = e.solver.litOf(q[i])
 	}
 	strVals := map[string][]string{} // abstract value -> names
-	info := map[string][2]string{}
+	info := map[string][3]string{}
 	for i := 0; i < nNames; i++ {
 		n := q[i]
 		switch e.nameSort[n] {
 		case "Str":
 			strVals[vals[i]] = append(strVals[vals[i]], n)
-			info[n] = [2]string{vals[i+1], vals[i+2]}
-			i += 2
+			info[n] = [3]string{vals[i+1], vals[i+2], vals[i+3]}
+			i += 3
 		case "Bool":
 			m[n] = vals[i]
 		case "(_ FloatingPoint 11 53)":
@@ -461,6 +461,12 @@ func (e *Exec) model() map[string]string {
 		var s string
 		if lit, ok := litAbs[a]; ok {
 			s = lit
+		} else if low, ok := litAbs[in[2]]; ok && strings.ToUpper(low) != low && len(low) == int(L) {
+			// the token is not that literal but lower-cases to it: a case variant
+			s = strings.ToUpper(low)
+			if used[s] {
+				s = strings.ToUpper(low[:1]) + low[1:]
+			}
 		} else {
 			s = spell(idx, int(L), clean, used)
 		}
@@ -1235,6 +1241,44 @@ func (e *Exec) ropeEq(a, b symStr) value {
 			// NOTE: this aligns the maximal digit run of the literal with the number; sound when the
 			// next piece on the number's side does not start with a digit (true for RESP framing).
 			conj = append(conj, "(= "+it.t+" "+cst+")")
+			rest := lit.lit[k:]
+			if first {
+				i++
+				pb[j].lit = rest
+				if rest == "" {
+					j++
+				}
+			} else {
+				j++
+				pa[i].lit = rest
+				if rest == "" {
+					i++
+				}
+			}
+			continue
+		case x.k == pFtoa && y.k == pLit, x.k == pLit && y.k == pFtoa:
+			ft, lit := x, y
+			first := true
+			if x.k == pLit {
+				ft, lit = y, x
+				first = false
+			}
+			if ft.fmtc == '6' {
+				panic(abortPath{why: "ropeEq: %f rendering against literal", kind: "unsupported"})
+			}
+			k := 0
+			for k < len(lit.lit) && strings.IndexByte("0123456789.eE+-InfNa", lit.lit[k]) >= 0 {
+				k++
+			}
+			pf, perr := strconv.ParseFloat(lit.lit[:k], 64)
+			if perr != nil || strconv.FormatFloat(pf, ft.fmtc, -1, 64) != lit.lit[:k] {
+				return false
+			}
+			if pf != pf {
+				conj = append(conj, "(fp.isNaN "+ft.t+")")
+			} else {
+				conj = append(conj, "(= "+ft.t+" "+fpConst(pf)+")")
+			}
 			rest := lit.lit[k:]
 			if first {
 				i++
